@@ -316,5 +316,17 @@ Definition unsatisfiedb (items : list item) : bool :=
   existsb (fun c => existsb (fun e => match providers items e with [] => true | _ => false end) (ireq c)) items.
 Definition max_providers (items : list item) : nat :=
   fold_right (fun e acc => Nat.max (length (providers items e)) acc) O (entities items).
+(* the shape the chaining block of resolve is written for (TreeDiff / RenameAnalysis): exactly one entity has
+   two providers, none has more, and one of the two providers requires the entity itself *)
+Fixpoint dedupZ (l : list Z) : list Z :=
+  match l with [] => [] | x :: r => if memZ x r then dedupZ r else x :: dedupZ r end.
+Definition two_provider_keys (items : list item) : list Z :=
+  filter (fun e => Nat.eqb (length (providers items e)) 2) (dedupZ (entities items)).
+Definition renames_shapeb (items : list item) : bool :=
+  Nat.eqb (max_providers items) 2 &&
+  match two_provider_keys items with
+  | [e] => existsb (fun p => memZ e (ireq p)) (providers items e)
+  | _ => false
+  end.
 (* cyclic requirements: some item transitively requires one of its own outputs *)
 Definition cyclicb (items : list item) : bool := existsb (fun c => feedsb items c c) items.
